@@ -68,6 +68,20 @@ def layout_compare(name, E, A, res=None):
         return out
     rootE, pe = para_elements(E)
     _rootA, pa = para_elements(A)
+    # prefixes used inside attribute values (of:=SUM(...), ooow:...) keep their binding: a prefix bound at the root of the
+    # part in memory and used that way is bound to the same URI in the artefact
+    import re as _re
+
+    used = set()
+    for el in rootE.iter():
+        if isinstance(el.tag, str):
+            for v in el.attrib.values():
+                m = _re.match(r"([A-Za-z_][\w.-]*):[^/\s]", v)
+                if m:
+                    used.add(m.group(1))
+    lost = sorted(pfx for pfx in used if pfx in (rootE.nsmap or {}) and (_rootA.nsmap or {}).get(pfx) != rootE.nsmap[pfx])
+    if lost:
+        out.append(("layout:prefix-used-in-attribute-values-no-longer-bound", {"part": name, "prefixes": lost}, None))
     for k, (p1, p2) in enumerate(zip(pe, pa)):
         t1, t2 = odftext.project(p1), odftext.project(p2)
         if t1 != t2:
